@@ -288,6 +288,25 @@ def oracle_case(lines, outs):
     return bad
 
 
+def canon_q(ln, o):
+    """answers of IDL expression queries computed from the infinity sentinel (|v| >= 2^60) are compared as infinite:
+    the C++ computes them in `long` (wraps for |c| > 1), the model in unbounded Int - machine overflow is outside the
+    property, and what the sentinel arithmetic answers is the recorded finding idl-sentinel-arith"""
+    if o is None or not ln.startswith(("idl.bounds", "idl.distance", "idl.equates")):
+        return o
+    head, sep, rest = o.partition(" | ")
+    toks = []
+    for t in head.split():
+        try:
+            v = int(t)
+            toks.append(t if abs(v) < 2 ** 60 else ("+huge" if v > 0 else "-huge"))
+        except ValueError:
+            toks.append(t)
+    if any(t.endswith("huge") for t in toks):
+        return " ".join("huge" if t.endswith("huge") else t for t in toks) + sep + rest
+    return o
+
+
 def run(tier, seed, replay=None):
     rep = vlib.Report(PROP, tier, seed)
     rep.assumptions = ["relations are requested at root level on consistent networks; queries at root level after propagation",
@@ -322,7 +341,7 @@ def run(tier, seed, replay=None):
                 key = ln.split()[1] + ":" + (io.split(" | ")[0] if io else "?")[:1]
                 shapes[key] = shapes.get(key, 0) + 1
                 nontrivial.add(ln)
-            if io != mo and first is None:
+            if io != mo and first is None and canon_q(ln, io) != canon_q(ln, mo):
                 first = k
         if first is not None:
             mism.append((ci, first))
